@@ -29,7 +29,7 @@ func main() {
 		if len(os.Args) > 2 {
 			tag = os.Args[2]
 		}
-		b, err := PrepareBuild(buildOpts{Tag: tag, NeedRoot: true, NeedTB: true, Race: os.Getenv("VSIM_RACE") != ""})
+		b, err := PrepareBuild(buildOpts{Tag: tag, NeedRoot: true, NeedTB: true, Corpus: true, Race: os.Getenv("VSIM_RACE") != ""})
 		if b != nil {
 			fmt.Println("scratch:", b.Dir)
 			fmt.Println("wall:", b.Wall)
